@@ -5,8 +5,12 @@
    with their indexings) and Api/Panic.v (constructTxIn, estimateSignedSize, EstimateManualTxFee,
    signWitnessTx, addTxIn, findEligibleUtxos, CreateRawTransaction, SignRawTx, NewAddress,
    GetAllAddressesWithPubkey, GetTxHistory/selectRelatedTx, the current-keystore reads of txmgr,
-   asyncImport, the task queue, the input look-ups of filterTx / filterTxForImporting, filterBlock),
-   with explicit [Panic site] outcomes; the follower: Ledger/Model.v [process_or_keep].
+   asyncImport, the task queue, the input look-ups of filterTx / filterTxForImporting, filterBlock;
+   second group: the argument checks of CreateStaking/Binding/PoolPkCoinbaseTransaction, AutoCreateTransaction and
+   GetTransactionFee with massutil.DecodeAddress and blockchain.DecodePayload as oracles [codecs], getTxType /
+   createVinList over the transactions the node serves, GetBlockStakingReward's coinbase outputs, CheckTargetBinding,
+   GetStakingHistory, GetBindingHistory with the rows of txmgr's two history readers, SendRawTransaction, the cache
+   look-up of ValidateAddress), with explicit [Panic site] outcomes; the follower: Ledger/Model.v [process_or_keep].
    PARTIAL claim: everything behind the modelled part of a method is an oracle that answers
    ([e_rest_ok], [e_decode_tx], [e_sign_ok] …); which functions are modelled is listed in
    /verif/corpus/C19_inventory.json and compared with the compiler's bounds-check report on every run. *)
@@ -277,7 +281,11 @@ Example C19_second_group_nontrivial :
   handle id_trim cd0 all_fixed env0 w_none (RSendRawTransaction []) = Err ErrAPIInvalidTxHex /\
   handle id_trim cd0 all_fixed env0 w_none (RSendRawTransaction [48; 48]) = Ok tt /\
   handle id_trim cd0 all_fixed env0 w_sel (RGetTransactionFee [([115], [49])] [] true) = Err ErrAPIInvalidAddress /\
-  handle id_trim cd0 all_fixed env0 w_sel (RGetTransactionFee [([115], [49])] [] false) = Ok tt.
+  handle id_trim cd0 all_fixed env0 w_sel (RGetTransactionFee [([115], [49])] [] false) = Ok tt /\
+  handle id_trim cd0 all_fixed env0 w_sel (RValidateAddress [109]) = Ok tt /\
+  handle id_trim cd0 all_fixed env0 w_sel (RValidateAddress [112]) = Err ErrAPIInvalidAddress /\
+  handle id_trim cd0 all_fixed env0 w_none (RValidateAddress [109]) = Err ErrAPINoWalletInUse /\
+  handle id_trim cd0 all_fixed env0 w_none (RValidateAddress [122]) = Ok tt.
 Proof. repeat split; vm_compute; reflexivity. Qed.
 
 (* non-vacuity: the witness state is well formed, has a selected wallet with a pending transaction and a
